@@ -1,6 +1,7 @@
 package props
 
 import (
+	"net"
 	"bytes"
 	"fmt"
 	"testing"
@@ -38,7 +39,7 @@ func hrrGroupFor(ch *wire.ClientHello) tls.CurveID {
 
 // C16 — GREASE ECH extensions look like real outer ECH extensions.
 func TestC16(t *testing.T) {
-	r := mon.New("C16", "parrots whose spec carries a GREASE ECH extension (no real ECH config) x N connections x {plain server, HRR server}: parsed encrypted_client_hello of CH1 (and CH2) checked against the spec's candidate lists: type outer, (KDF,AEAD) in the candidates, 32-byte enc, payload length = candidate + 16-byte AEAD tag; CH2 extension bytes identical to CH1; config id / enc / payload fresh across connections. distinct = (parrot, kdf, aead, payload length, config id) tuples")
+	r := mon.New("C16", "parrots whose spec carries a GREASE ECH extension (no real ECH config) x N connections x {plain server, HRR server, HRR server whose HelloRetryRequest carries a cookie}: parsed encrypted_client_hello of CH1 (and CH2) checked against the spec's candidate lists: type outer, (KDF,AEAD) in the candidates, 32-byte enc, payload length = candidate + 16-byte AEAD tag; CH2 extension bytes identical to CH1; config id / enc / payload fresh across connections. distinct = (parrot, kdf, aead, payload length, config id) tuples")
 	defer r.Finish(t)
 	conns := mon.Pick(128, 1000)
 	targets := 0
@@ -86,7 +87,26 @@ func TestC16(t *testing.T) {
 				} else {
 					scfg := peer.ServerConfig()
 					scfg.CurvePreferences = []tls.CurveID{grp}
-					h := peer.Run(peer.ClientConfig("example.test"), p.ID, scfg, peer.Opts{})
+					opts := peer.Opts{}
+					if k%2 == 0 {
+						// every other HelloRetryRequest also carries a cookie (added before the server's
+						// transcript; the echo is cleared before the server compares the two hellos)
+						cookie := randBytes(Sub("C16cookie", k), []int{1, 32, 500}[(k/2)%3])
+						plan := &tls.VerifPlan{ClearCookie: true, RewriteOut: func(isClient bool, data []byte) []byte {
+							if isClient || len(data) < 4 || data[0] != 2 {
+								return nil
+							}
+							sh, err := wire.ParseServerHello(data)
+							if err != nil || !sh.IsHRR {
+								return nil
+							}
+							sh.SetExt(wire.ExtCookie, vec16(cookie))
+							return sh.Marshal()
+						}}
+						opts.ServerSetup = func(s *tls.Conn, _ net.Conn) { tls.VerifAttach(s, plan) }
+						r.Count("hrr_with_cookie", 1)
+					}
+					h := peer.Run(peer.ClientConfig("example.test"), p.ID, scfg, opts)
 					hellos = wire.ClientHellos(h.C2S)
 					if len(hellos) == 2 {
 						hrrSeen++
